@@ -247,13 +247,37 @@ pub fn make_remote(k: &KeySpec, plan: Arc<FailPlan>) -> Result<rcgen::KeyPair, S
 	rcgen::KeyPair::from_remote(Box::new(r)).map_err(|e| format!("from_remote: {e}"))
 }
 
-/// Builds the rcgen key pair a `KeySpec` describes.
 /// The same PEM block with two header lines and the blank separator line after BEGIN.
 pub fn with_pem_headers(pem: &str) -> String {
 	let (first, rest) = pem.split_once('\n').expect("PEM text has lines");
 	format!("{first}\nComment: loaded by the harness\nX-Origin: fixture\n\n{rest}")
 }
 
+/// A remote key pair whose public key is whatever bytes the caller says (rcgen treats the public
+/// key of a remote signer as opaque) and whose signatures are a fixed filler. For checks that look
+/// at the encoding and at values derived from the key bytes, not at the signature.
+pub struct OpaqueRemote {
+	pub public: Vec<u8>,
+	pub alg: &'static rcgen::SignatureAlgorithm,
+}
+
+impl rcgen::RemoteKeyPair for OpaqueRemote {
+	fn public_key(&self) -> &[u8] {
+		&self.public
+	}
+	fn sign(&self, _msg: &[u8]) -> Result<Vec<u8>, rcgen::Error> {
+		Ok(vec![0x30, 0x06, 0x02, 0x01, 0x01, 0x02, 0x01, 0x01])
+	}
+	fn algorithm(&self) -> &'static rcgen::SignatureAlgorithm {
+		self.alg
+	}
+}
+
+pub fn opaque_key(public: Vec<u8>, alg: &'static rcgen::SignatureAlgorithm) -> Result<rcgen::KeyPair, String> {
+	rcgen::KeyPair::from_remote(Box::new(OpaqueRemote { public, alg })).map_err(|e| format!("from_remote: {e}"))
+}
+
+/// Builds the rcgen key pair a `KeySpec` describes.
 pub fn make_key(k: &KeySpec) -> Result<rcgen::KeyPair, String> {
 	if k.remote || !cfg!(feature = "crypto") {
 		return make_remote(k, Arc::new(FailPlan::default()));
